@@ -25,14 +25,16 @@ DEFAULTS = {"http": 80, "https": 443, "ws": 80, "wss": 443, "ftp": 21}
 STRUCT = "/?#@[]:\t\r\n"
 
 
-def expected_views(ctx, u, scheme, hostsub, value, tail="/"):
+def expected_views(ctx, u, scheme, hostsub, value, tail="/", port_text=None):
     """checks on a URL whose explicit port is the (symbolic or concrete) integer `value` (None = absent)"""
     dflt = DEFAULTS.get(scheme)
     ctx.check("explicit_port", sym_eq(u.explicit_port, value))
     if value is None:
         ctx.check("port-falls-back-to-default", sym_eq(u.port, dflt))
         ctx.check("is_default_port-when-absent", u.is_default_port() is True)
-        ctx.check("str-without-port", sym_eq(str(u), scheme + "://" + hostsub + tail if scheme else "//" + hostsub + tail))
+        # encoded=True keeps the authority text verbatim, including an empty port's ':'
+        sep = ":" if port_text is not None else ""
+        ctx.check("str-without-port", sym_eq(str(u), (scheme + "://" if scheme else "//") + hostsub + sep + tail))
         ctx.check("host_port_subcomponent-without-port", sym_eq(u.host_port_subcomponent, hostsub))
         return
     ctx.check("port-is-explicit", sym_eq(u.port, value))
@@ -43,20 +45,25 @@ def expected_views(ctx, u, scheme, hostsub, value, tail="/"):
         ctx.check("str-drops-default-port", sym_eq(str(u), pre + hostsub + tail))
         ctx.check("host_port_subcomponent-drops-default-port", sym_eq(u.host_port_subcomponent, hostsub))
     else:
-        ctx.check("str-keeps-port", sym_eq(str(u), pre + hostsub + ":" + str(value) + tail))
+        ctx.check("str-keeps-port", sym_eq(str(u), pre + hostsub + ":" + (str(value) if port_text is None else port_text) + tail))
         ctx.check("host_port_subcomponent-keeps-port", sym_eq(u.host_port_subcomponent, hostsub + ":" + str(value)))
 
 
-def h_ctor(ctx, scheme, host, k):
+def h_ctor(ctx, scheme, host, k, encoded=False):
     P = ctx.P
     d = ctx.str("d", k) if k else ""
     if k:
         ctx.assume(all_of([c not in STRUCT for c in d]), "port text hole is not a URL structure character")
         ctx.assume(d[0] not in " " if not scheme and False else True)
     text = (scheme + "://" if scheme else "//") + host + ":" + d + "/"
-    r = call(P.URL, text)
+    r = call(P.URL, text, encoded=encoded)
     ctx.observe("URL", outcome(r))
     digits = all_of([c in "0123456789" for c in d]) if k else True
+    if encoded and r[0] == "ok":
+        # encoded=True stores the text verbatim; the port is validated when it is first derived
+        pr = call(lambda: r[1].explicit_port)
+        if pr[0] != "ok":
+            r = pr
     if r[0] == "excluded":
         if r[1].startswith("int(text)"):
             # the port text reached int() although it is not made of ASCII digits (that is where the model stops)
@@ -74,13 +81,13 @@ def h_ctor(ctx, scheme, host, k):
     u = r[1]
     hostsub = host
     if k == 0:
-        expected_views(ctx, u, scheme, hostsub, None)
+        expected_views(ctx, u, scheme, hostsub, None, port_text="" if encoded else None)
         return
     ctx.check("non-numeric-port-must-be-refused", digits)
     v = int(d)
     ctx.check("out-of-range-port-must-be-refused", v <= 65535)
     ctx.observe("explicit_port", u.explicit_port)
-    expected_views(ctx, u, scheme, hostsub, v)
+    expected_views(ctx, u, scheme, hostsub, v, port_text=d if encoded else None)
 
 
 def h_build(ctx, scheme, host, hostsub):
@@ -153,6 +160,8 @@ def families(tier):
                 if k == kmax and not (scheme == "http" and host == "h"):
                     continue
                 fams.append(Family("ctor/%s/%s/k=%d" % (scheme or "none", host, k), h_ctor, dict(scheme=scheme, host=host, k=k)))
+                if scheme in ("http", "wss", "x") and host == "h" and k <= 4:
+                    fams.append(Family("ctor-encoded/%s/%s/k=%d" % (scheme or "none", host, k), h_ctor, dict(scheme=scheme, host=host, k=k, encoded=True)))
     for scheme in ("http", "https", "ws", "wss", "ftp", "x", ""):
         for host, hostsub in (("h", "h"), ("::1", "[::1]"), ("1.2.3.4", "1.2.3.4")):
             fams.append(Family("build/%s/%s" % (scheme or "none", host), h_build, dict(scheme=scheme, host=host, hostsub=hostsub)))
